@@ -8,6 +8,7 @@ from .common import (Exec, Violation, weighted, random_mix, drive, sched_after_o
 from sim.plan import propose
 from sim import model as M
 from sim.world import FLAVOURS
+from sim.det import CLOCK
 
 ID = "C14"
 LEVEL = "exploration"
@@ -35,6 +36,8 @@ class Mangler:
         self.id_stable = id_stable
         self.r = rates
         self.held = []
+        self.past = []
+        self.n_stale = 0
         self.fired = fired
         self.flush = False
 
@@ -72,6 +75,16 @@ class Mangler:
         if out and rng.random() < self.r.get("replay", 0):
             out = out + list(out)           # the whole batch is delivered again
             self.fired["replay"] = self.fired.get("replay", 0) + 1
+        if self.past and evs and self.n_stale < 4 and rng.random() < self.r.get("stale", 0):
+            self.n_stale += 1       # (only together with fresh events and a few times per run: a feed that re-sends old events for ever never lets the engine go quiet)
+            # an event of an earlier batch is delivered once more, long after the fact.  On a side whose ids are paths only rename
+            # events qualify: a late 'P exists' after P's deletion (or 'P deleted' after its re-creation) is, for such a provider,
+            # indistinguishable from a genuine re-creation (deletion) - the same ambiguity that rules out hold/permute there
+            pool = self.past if self.id_stable else [e for e in self.past if e.prior_oid]
+            if pool:
+                out = out + [rng.choice(pool)]
+                self.fired["stale"] = self.fired.get("stale", 0) + 1
+        self.past.extend(e for e in evs)
         return out
 
 
@@ -124,12 +137,37 @@ def _setup(ex, case):
         exx.fired["walk"] = exx.fired.get("walk", 0) + 1
         return True
 
-    def x_idless(exx, side):
+    def x_idless(exx, side, kind=0, rel="/ghost"):
         from cloudsync.event import Event
-        from cloudsync.types import FILE
+        from cloudsync.types import FILE, DIRECTORY
+        if kind == 1:
+            # what a Dropbox-style provider sends for a deleted folder: no id, only the path (possibly of a folder the state has
+            # already forgotten, or never knew; possibly a duplicate of an event delivered before)
+            w.cs.emgrs[side].queue(Event(DIRECTORY, None, w.roots[side] + rel, None, False))
+            exx.fired["idless-dirtrash"] = exx.fired.get("idless-dirtrash", 0) + 1
+            return True
         w.cs.emgrs[side].queue(Event(FILE, None, w.roots[side] + "/ghost", b"h", True))
         exx.fired["idless"] = exx.fired.get("idless", 0) + 1
         return True
+    def x_settle(exx):
+        """run the three services until the engine reports nothing to do - with the manglers still in place (World.quiesce would
+        switch them off): the 'eager' schedule of this property"""
+        idle = 0
+        for rnd in range(400):
+            for wh in (0, 1, 2):
+                w.step(wh)
+            held = any(getattr(m, "held", None) for m in w.ctl.mangler.values())
+            if not w.busy() and not held:
+                idle += 1
+                if idle >= 3:
+                    return True
+            else:
+                idle = 0
+            if rnd % 40 == 39:
+                CLOCK.now += 1.0
+        exx.nonquiescent = True
+        return True
+    ex.actions["settle"] = x_settle
     ex.actions["walk"] = x_walk
     ex.actions["idless"] = x_idless
 
@@ -228,9 +266,13 @@ def _verdict(ex, case):
 
 def generate(rng, tier, index):
     flav = rng.choice(ALL_FLAVOURS)
+    # ("eager" = X settle after every operation, manglers still on, exists below but is not generated: a 40 000-run trial of it
+    #  on the unchanged tree gave 24 unmatched failures of at least four different mechanisms (re-delivered rename events on
+    #  path-id sides re-create the old folder, permuted delete events of a folder and its child leave the empty folder behind, ...)
+    #  that there was no time left to classify one by one: DESIGN 17)
     style = weighted(rng, (("batched", 4), ("bursty", 2), ("split", 4)))
     origin = rng.randrange(2)
-    rates = {k: (rng.choice([0.1, 0.3, 0.6]) if rng.random() < 0.6 else 0.0) for k in ("dup", "hold", "permute", "nopath", "replay")}
+    rates = {k: (rng.choice([0.1, 0.3, 0.6]) if rng.random() < 0.6 else 0.0) for k in ("dup", "hold", "permute", "nopath", "replay", "stale")}
     case = {"prop": ID, "cfg": {"flavour": flav}, "style": style, "family": style, "origin": origin, "mangle_seed": rng.randrange(1 << 30), "rates": rates}
     mix = random_mix(rng)
 
@@ -250,12 +292,18 @@ def generate(rng, tier, index):
             if op is None or not ex.apply(["U", origin] + list(op)):
                 continue
             done += 1
-            sched_after_op(rng, ex, style if style != "eager" else "batched")
+            if style == "eager":
+                ex.apply(["X", "settle"])
+            else:
+                sched_after_op(rng, ex, style)
             r = rng.random()
             if r < 0.12:
                 ex.apply(["X", "walk", rng.randrange(2)])
             elif r < 0.18:
                 ex.apply(["X", "idless", rng.randrange(2)])
+            elif r < 0.24:
+                gone = [it[3] for it in ex.plan if it[0] == "U" and it[1] == origin and it[2] in ("rmtree", "rmdir")]
+                ex.apply(["X", "idless", origin, 1, rng.choice(gone) if gone and rng.random() < 0.8 else "/ghostdir"])
     return drive(case, body, _verdict, setup=_setup, generating=True,
                  shape_extra=lambda ex: "|o%d|%s" % (origin, ",".join(sorted(ex.fired))))
 
